@@ -10,13 +10,15 @@ F(p, a) == [pat |-> p, act |-> a]
 Filters == << F(Pat("true"), Act("none")), F(Pat("false"), Act("none")), F([t |-> "npmod", m |-> 2, r |-> 0], Act("count")),
               F(Cm("cnt", "<", 1), Act("none")), F(Pat("none"), [t |-> "setttl", k |-> 9]), F([t |-> "ttl", op |-> "==", k |-> 9], Act("none")),
               F(Cm("PL", ">=", 34), Act("local")), F([t |-> "ethtype", k |-> 2048], Act("count")) >>
+NonBools == {F([t |-> "npint", m |-> 2], Act("count")), F([t |-> "cntval"], Act("local")), F([t |-> "npint", m |-> 3], Act("none"))}
 \* a minimal Ethernet / IPv4 frame of 34 bytes with ttl t
 Frame(t) == <<2,0,0,0,0,1, 2,0,0,0,0,2, 8,0,  69,0,0,20, 0,1,0,0, t,6,0,0, 10,0,0,1, 10,0,0,2>>
 Hdr(sec, n) == <<sec,0,0,0, 5,0,0,0, n,0,0,0, n,0,0,0>>
 Pk(k) == [hdr |-> Hdr(k, 34), raw |-> Frame(60 + k)]
 GHdr == <<212,195,178,161, 2,0,4,0, 0,0,0,0, 0,0,0,0, 255,255,0,0, 1,0,0,0>>
 Progs == {[filters |-> fs, hasEnd |-> e] : fs \in {<<>>} \cup {<<Filters[a]>> : a \in 1..8} \cup {<<Filters[a], Filters[b]>> : a \in 1..8, b \in 1..8}
-                                               \cup {<<Filters[5], Filters[a], Filters[6]>> : a \in 1..8}, e \in BOOLEAN}
+                                               \cup {<<Filters[5], Filters[a], Filters[6]>> : a \in 1..8}
+                                               \cup {<<Filters[a], NB>> : a \in 1..8, NB \in NonBools} \cup {<<NB>> : NB \in NonBools}, e \in BOOLEAN}
 Inputs == {<<>>, <<Pk(1)>>, <<Pk(1), Pk(2)>>, <<Pk(1), Pk(2), Pk(3)>>}
 VARIABLES cfg, st
 vars == <<cfg, st>>
